@@ -235,6 +235,65 @@ class RemoveEntityW(Contract):
         ctx.oblige("nothing-else-in-the-file-changes", z3.And(f.unchanged_except(foot, ("links",)), f.st.attrs == f.pre.attrs, f.st.dset == f.pre.dset), kind="frame")
 
 
+class WriteArrayAttribute(Contract):
+    """write_array_attribute(file, entity, attribute): afterwards the entity's node holds exactly one
+    dataset for the attribute and it is the entity's *current public value* -- including a value the
+    public getter only derives on demand (cells of a curve built from its vertices); without a value
+    the node holds no such dataset.  Nothing else in the file changes."""
+    target = "geoh5py/io/h5_writer.py::H5Writer.write_array_attribute"
+    props = ("C03", "C08")
+    uses = (FetchHandle,)
+
+    def cases(self):
+        return [(a, src) for a in ("cells", "trace", "surveys") for src in ("explicit", "stored", "derived-on-demand", "absent")]
+
+    def setup(self, ctx):
+        from pyvc.models_np import sym_arr
+
+        f = F(ctx)
+        attribute, src = ctx.case
+        e = entity(ctx, "object")
+        e.attrs["workspace"] = AbsObj("workspace", {"repack": False})
+        value = sym_arr("value", (z3.Int(fresh_name("n")), 2), "int" if attribute == "cells" else "real")
+        ctx.assume(value.shape[0] >= 0)
+        priv = "_" + attribute
+        e.attrs[priv] = value if src == "stored" else None
+        e.getters = {}
+
+        def public(I, _src=src):
+            I.event("public-getter", attribute=attribute)
+            if _src == "derived-on-demand":
+                e.attrs[priv] = value  # the getter builds and caches the value
+            return e.attrs[priv]
+
+        e.getters[attribute] = public
+        ctx.env.update(f=f, e=e, value=value)
+        from geoh5py.io.h5_writer import H5Writer
+
+        return [H5Writer, f.file, e, attribute], ({"values": value} if src == "explicit" else {})
+
+    def post(self, ctx, result):
+        from geoh5py.shared.utils import KEY_MAP
+        from pyvc.models_h5 import val_of
+
+        f, e = ctx.env["f"], ctx.env["e"]
+        attribute, src = ctx.case
+        I = ctx.I
+        node = f.flat(f.pre, "object", f.uname(I, e.attrs["uid"]))
+        key = A(KEY_MAP[attribute])
+        d = f.st.link(node, key)
+        if src == "absent":
+            ctx.oblige("no-value-no-dataset", z3.Implies(node != 0, d == 0))
+        else:
+            ctx.oblige("the-dataset-is-a-new-node", z3.Implies(node != 0, z3.And(d >= f.pre.next, d < f.st.next)))
+            ctx.oblige("the-dataset-holds-the-entitys-current-public-value", z3.Implies(node != 0, z3.Select(f.st.dset, d) == val_of(I, ctx.env["value"])),
+                       note="the value the public getter reports (possibly derived on demand) is not what was written")
+        nm = z3.Int(fresh_name("nm"))
+        ctx.oblige("the-entitys-other-entries-are-kept", z3.ForAll([nm], z3.Implies(nm != key, f.st.link(node, nm) == f.pre.link(node, nm))), kind="frame")
+        ctx.oblige("nothing-else-in-the-file-changes", z3.And(f.unchanged_except([node], ("links",)), f.unchanged_except([], ("attrs", "dset"))), kind="frame")
+        ctx.oblige("an-entity-that-is-not-stored-is-not-written", z3.Implies(node == 0, z3.And(f.st.links == f.pre.links, f.st.next == f.pre.next)), kind="frame")
+
+
 class WriteToParent(Contract):
     """write_to_parent links the child's own flat node (a hard link, never a copy) under the
     parent's container of the child's kind, and changes nothing else."""
@@ -385,7 +444,7 @@ class WritePropertiesStub(Contract):
 WriteEntity.uses = (WriteEntityTypeStub, WritePropertiesStub)
 WriteEntity.trusted = ("write_entity_type returns the shared type node (one node per type uid; its own contract is not yet written); write_properties writes attributes/datasets of the new node only (C03/C08)",)
 
-CONTRACTS = [FetchHandle, RemoveChild, RemoveEntityW, WriteEntityStub, WriteToParent, WriteEntityTypeStub, WritePropertiesStub, WriteEntity]
+CONTRACTS = [WriteArrayAttribute, FetchHandle, RemoveChild, RemoveEntityW, WriteEntityStub, WriteToParent, WriteEntityTypeStub, WritePropertiesStub, WriteEntity]
 
 
 class InitGeoh5(Contract):
